@@ -141,6 +141,34 @@ def run(ctx):
                                    "correspondence": "PV.Tools.shard vs bin/shard (which file a key lands in)"}, no_input=True,
                                    summary=f"shard model/impl differ on {op[:80]}")
             break
+    # -c gzip / bzip2 on volumes at which the compressed output meets the writer's 4 KiB staging buffer at every alignment: the
+    # stream class behind every shard file is driven directly with 48 MB (thorough: 256 MB) of incompressible data in writes of
+    # 1..4096 bytes and the file is expanded with an independent decoder
+    import zlib as _zlib
+    implz = os.path.join(ctx.bdir, "harness", "implcompress")
+    bulk = [f"z.writerand {c_} {ctx.seed * 1000 + 500 + k} {t_} 4096" for k, (c_, t_) in enumerate(
+        [("gzip", 12_000_000)] * 4 + [("bzip2", 1_500_000)] if ctx.tier == "quick" else [("gzip", 16_000_000)] * 16 + [("bzip2", 4_000_000)] * 2)]
+    from concurrent.futures import ThreadPoolExecutor
+    with ThreadPoolExecutor(max_workers=8) as ex:
+        bres = list(ex.map(lambda o_: pvlib.run_lines(implz, [o_], env=pvlib.san_env(), timeout=1800, per_line_timeout=600, stall=600)[0], bulk))
+    ctx.count("shard-file-stream-bulk", len(bulk), bulk)
+    for o_, x in zip(bulk, bres):
+        xs = x.split()
+        comp_ = o_.split()[1]
+        if xs[0] != "ok":
+            pvlib.report_violation(ctx, "shard-stream:" + o_, {"ops": [o_], "impl": x[:300]}, summary=f"{o_}: {x[:80]}")
+            break
+        raw = open(xs[1], "rb").read()
+        os.unlink(xs[1])
+        try:
+            dec = gzip.decompress(raw) if comp_ == "gzip" else bz2.decompress(raw)
+            prob = None if (len(dec) == int(xs[2]) and _zlib.crc32(dec) == int(xs[3])) else f"expands to {len(dec)} bytes with another checksum; {xs[2]} were written"
+        except Exception as e:
+            prob = f"is not a valid {comp_} stream: {e!r}"
+        if prob:
+            pvlib.report_violation(ctx, "shard-stream:" + o_, {"ops": [o_], "problem": prob, "file_bytes": len(raw)},
+                                   summary=f"the {comp_} stream a shard file is written through, {xs[2]} pseudo-random bytes in writes of 1..4096 bytes ({o_}): the file {prob}")
+            break
     # purity: the file of a key does not depend on neighbours / position
     base = [b"k%d" % i for i in range(30)]
     where = {}
